@@ -63,6 +63,9 @@ FAULTS = {
     "implied-instruction-with-index-name": ["pha x"],
     "undefined-width-rep": ["rep.w #1"],
     "undefined-width-lda": ["lda.l #1"],
+    "undefined-width-jmp-byte": ["jmp.b 0x10"],
+    "undefined-width-indexed-y-byte": ["lda.b 0x10,y"],
+    "undefined-width-pea-byte": ["pea.b 0x12"],
     "branch-out-of-range": ["lb_flt_t:", ".ascii '" + "x" * 200 + "'", "bra lb_flt_t"],
     "unmapped-position": None,  # rom dependent
     "position-beyond-24-bits": None,  # rom dependent: an address whose low 24 bits would be a mapped ROM address
